@@ -136,6 +136,14 @@ class Terms:
     def _const(self, e):
         if isinstance(e, ast.Constant):
             return e.value
+        # <module-level dict>['key'] of the writer module, e.g. opcodes['end']
+        if isinstance(e, ast.Subscript) and isinstance(e.value, ast.Name) and isinstance(e.slice, ast.Constant):
+            try:
+                tbl = self.model.fold(self.model.module_assign(WA, e.value.id))
+                v = tbl.get(e.slice.value) if isinstance(tbl, dict) else None
+                return v if isinstance(v, int) else None
+            except Exception:
+                return None
         return None
 
     def out(self, name) -> List[tuple]:
